@@ -187,7 +187,7 @@ IMP_V1 = """From Coq Require Import List NArith ZArith Bool Arith Lia.
 Import ListNotations.
 From LC.Base Require Import Utf8.
 From LC.Base Require Import Sort.
-From LC.V1 Require Import Tok1 Matcher1 Tok1Proof Matcher1Proof Matcher1Straddle Join1 Join1Proof."""
+From LC.V1 Require Import Tok1 Matcher1 Tok1Proof Matcher1Proof Matcher1Straddle Matcher1Inside Join1 Join1Proof."""
 
 PROPS.append(('C17', """(* C17 - v1 token offsets and candidate ranges always delimit real text.
    Statements only; proofs in V1/Tok1Proof.v.  [tokenize U true] is the model
@@ -224,6 +224,9 @@ PROPS.append(('C13', """(* C13 - v1 string classifier finds verbatim occurrences
  ('C13_reported_spans_inside_text', 'exact_span_in_bounds', 'V1/Matcher1Proof.v', 'every reported Offset/Extent lies inside the normalised unknown string'),
  ('C13_occurrence_ending_inside_a_token', 'exact_span_straddle', 'V1/Matcher1Straddle.v', 'the recorded known finding, pinned down: when the copy ends strictly inside a token (it is continued by word characters) the reported Extent runs to the end of that token'),
  ('C13_straddle_overshoot', 'exact_span_straddle_overshoot', 'V1/Matcher1Straddle.v', '... so "Offset/Extent delimit exactly that copy" fails there by exactly the rest of that token, and only there (C13_exact_occurrence_span covers the aligned case)'),
+ ('C13_start_token_never_found', 'scan_start_unfound', 'V1/Matcher1Inside.v', 'the second recorded known finding, pinned down: when no token starts where the copy starts, the scan never assigns the start index'),
+ ('C13_occurrence_starting_inside_a_token', 'exact_span_starts_inside', 'V1/Matcher1Inside.v', '... so a copy that starts strictly inside a token is reported from the offset of the FIRST token of the text up to the end of the copy'),
+ ('C13_starts_inside_overshoot', 'exact_span_starts_inside_overshoot', 'V1/Matcher1Inside.v', '... which is wrong at the front by exactly the distance from the start of the text to the copy, and exact at the back'),
  ('C13_original_multi_token', 'exact_span_multi_original', 'V1/Matcher1Proof.v', 'the scan as found was already exact for occurrences of at least two tokens'),
  ('C13_original_single_token_panics', 'scan_original_single_token_refuted', 'V1/Matcher1Proof.v', 'REFUTATION for the scan as found: "foo" in "bar foo" is the slice [4:3] panic', 'typeof'),
  ('C13_original_single_token_extent', 'scan_original_single_token_refuted_extent', 'V1/Matcher1Proof.v', '... and "foo" in "foo bar" is reported with extent 7', 'typeof'),
